@@ -7,7 +7,9 @@
 // strict reference parser; accepted expressions are iterated under a STEP BUDGET (the
 // loop is in this file, so a non-terminating iterator is detected after budget steps, and
 // every case additionally runs in a forked child with an alarm).
+#include <algorithm>
 #include <sstream>
+#include <stdexcept>
 
 #include "bsx.h"
 #include "votca/tools/rangeparser.h"
@@ -37,22 +39,33 @@ static std::string dec(const std::string &s) {
 struct RBlock { long b, e, s; bool empty() const { return s > 0 ? b > e : b < e; } };
 struct RefParse {
   bool blank = false;      // nothing but blanks: accepting (as the empty range) or rejecting are both allowed
+  bool either = false;     // spelling the statement does not settle (leading '+', tab/newline as blank, integers beyond 32 bit):
+                           // may be rejected; if accepted it must denote what the reference reads
   std::string malformed;   // "" = well formed, else the class
   std::vector<RBlock> blocks;
 };
-static bool is_int(const std::string &t) {
+// 0 = not an integer, 1 = plain int, 2 = int in an unsettled spelling (leading '+', more than 9 digits), 3 = does not fit 64 bit
+static int int_class(const std::string &t) {
   size_t i = 0;
-  if (i < t.size() && t[i] == '-') i++;
-  if (i == t.size()) return false;
-  for (; i < t.size(); i++) if (!isdigit((unsigned char)t[i])) return false;
-  return t.size() <= 9;
+  bool plus = false;
+  if (i < t.size() && (t[i] == '-' || t[i] == '+')) { plus = t[i] == '+'; i++; }
+  if (i == t.size()) return 0;
+  size_t nd = t.size() - i;
+  for (; i < t.size(); i++) if (!isdigit((unsigned char)t[i])) return 0;
+  if (nd >= 20) return 3;
+  if (nd > 18) return 0;  // 19 digits: may or may not fit, not enumerated
+  return (plus || nd > 9) ? 2 : 1;
 }
 static std::vector<std::string> split_keep(const std::string &s, char d) { return bsx::split(s, d); }
 // DESIGN §6: after blank removal every comma separated block must be int, int:int or int:int:int, stride != 0
 static RefParse refparse(const std::string &expr) {
   RefParse r;
   std::string s;
-  for (char c : expr) if (c != ' ') s += c;
+  for (char c : expr) {
+    if (c == ' ') continue;
+    if (c == '\t' || c == '\n' || c == '\r') { r.either = true; continue; }  // the code strips ' ' only; other white space is unsettled
+    s += c;
+  }
   if (s.empty()) { r.blank = true; return r; }
   auto setm = [&](const std::string &m) { if (r.malformed.empty()) r.malformed = m; };
   for (const std::string &bl : split_keep(s, ',')) {
@@ -61,8 +74,11 @@ static RefParse refparse(const std::string &expr) {
     if (f.size() > 3) { setm("too-many-fields"); continue; }
     bool bad = false;
     for (auto &t : f) {
-      if (t.empty()) { setm("empty-field"); bad = true; }
-      else if (!is_int(t)) { setm("not-an-integer"); bad = true; }
+      int c = t.empty() ? -1 : int_class(t);
+      if (c == -1) { setm("empty-field"); bad = true; }
+      else if (c == 0) { setm("not-an-integer"); bad = true; }
+      else if (c == 3) { setm("overflowing-integer"); bad = true; }
+      else if (c == 2) r.either = true;
     }
     if (bad) continue;
     RBlock b;
@@ -76,6 +92,7 @@ static RefParse refparse(const std::string &expr) {
 }
 static std::vector<long> refseq(const std::vector<RBlock> &bl) {
   std::vector<long> v;
+  for (auto &b : bl) if (!b.empty() && (b.e - b.b) / b.s > 100000) throw std::runtime_error("block longer than the enumerated windows");
   for (auto &b : bl) {
     if (b.s > 0) for (long x = b.b; x <= b.e; x += b.s) v.push_back(x);
     else for (long x = b.b; x >= b.e; x += b.s) v.push_back(x);
@@ -135,6 +152,7 @@ static Outcome range_case(const std::string &expr) {
   }
   if (!accepted) {
     if (hasempty) { o.cls = bsx::fnv(std::string("rejected-empty-interval")); o.extra = "rejected"; return o; }  // '5:2' denotes nothing: rejecting is allowed
+    if (ref.either) { o.cls = bsx::fnv(std::string("rejected-unsettled-spelling")); o.extra = "rejected"; return o; }
     return fail(std::string("range-valid-rejected") + (hasneg ? "-negative-stride" : ""), "Parse(\"" + expr + "\") threw '" + err + "' but denotes " + show(exp), cas);
   }
   std::vector<long> got;
@@ -190,8 +208,13 @@ static Outcome add_case(const std::string &spec) {
 
 static Outcome run_case(const std::string &cas) {
   auto m = bsx::kvs(cas);
-  if (cas.rfind("range;", 0) == 0) return range_case(dec(m["expr"]));
-  if (cas.rfind("add;", 0) == 0) return add_case(m["blocks"]);
+  try {
+    if (cas.rfind("range;", 0) == 0) return range_case(dec(m["expr"]));
+    if (cas.rfind("add;", 0) == 0) return add_case(m["blocks"]);
+  } catch (const std::exception &e) {
+    Outcome o; o.ok = false; o.key = "bad-case"; o.what = std::string("harness: ") + e.what() + " [" + cas + "]";
+    return o;
+  }
   Outcome o; o.ok = false; o.key = "bad-case"; o.what = "unknown case " + cas;
   return o;
 }
@@ -210,7 +233,7 @@ int main(int argc, char **argv) {
   bool thorough = a.tier == "thorough";
   bsx::Report R;
   R.property = "C18"; R.part = "range"; R.tier = a.tier;
-  long lo = thorough ? -5 : -3, hi = thorough ? 12 : 6, smax = thorough ? 5 : 3;
+  long lo = thorough ? -8 : -3, hi = thorough ? 20 : 6, smax = thorough ? 6 : 3;
 
   std::vector<std::string> cases;  // full case strings, simplest first
   auto addexpr = [&](const std::string &e) { cases.push_back("range;expr=" + enc(e)); };
@@ -221,6 +244,15 @@ int main(int argc, char **argv) {
   // (2) malformed set, alone and next to a valid block
   std::vector<std::string> mal = {"", " ", ",", "1::3", ":5", "1:", "1:2:3:4", "a:3", "1x:3", "1:0:3", "1,,3", "1,", ",1", ":", "::", "1:2:",
                                   ":1:2", "1:3x", "1:x:3", "1.5", "1:2.5:4", "--1", "1-2", "-", "1;3", "1:2:3:4:5", "0x3", "3:0:3", "5:0:1", "1:-0:3", "1: :3", "1 : : 3"};
+  if (thorough)
+    for (auto &x : std::vector<std::string>{"+1", "+1:3", "1:+2:5", "1:3:+5", "-3:+1:+3", "++1", "+-1", "-+1", "+", "1+", "1:+", "+:3", "2147483647", "2147483648", "-2147483648", "-2147483649",
+                                            "4294967296", "123456789012", "123456789012:123456789014", "123456789012:2:123456789016", "-123456789012", "99999999999999999999",
+                                            "1:99999999999999999999", "-99999999999999999999", "1:100000000000000000000:5", "99999999999999999999:99999999999999999999", "00", "007", "-007", "1:02:5",
+                                            "1:-02:-5", "1e3", "1E3", "0b1", "1\t:3", "1:\t3", "\t1", "1\t", "1\n", "1,\n2", "1\r", "\t", "\n", " \t ", "1  :  3", "1 2", "1 2:1 5", "- 1", "- 1 : - 1 : - 3",
+                                            "1:2,,", ",,", ",,1", "1:2;3", "1:2:3:", ":1:2:3", "1,2,3,", "1:a", "a", "abc", "1:2:a", "1:-", "-:-", "1:-:3", "-:1", "0x10", "1.0", "1.", ".5", "1/2",
+                                            "1:2/3", "(1:3)", "[1:3]", "1..3", "1-3", "1 - 3", "1:3 5", "1:3:", "1:3:5:", ":::", "1:::3", "1::", "::3", "1,:", ":,1", "1:2:0", "0:0:0", "0:00:5", "5:-0:1",
+                                            "1:1:1:1", "1#3", "1:3#", "#", "1:3 # comment", "1_000", "1'000", "\"1\"", "'1:3'", "1:3\\", "*", "1:*", "?", "all", "1:end", "nan", "inf", "-inf", "1:inf"})
+      mal.push_back(x);
   for (auto &m : mal) addexpr(m);
   for (auto &m : mal) { addexpr("0:2," + m); addexpr(m + ",0:2"); }
   // (3) all two-block expressions over a block subset (singles, pairs, positive/negative/zero strides, empty intervals)
@@ -229,7 +261,16 @@ int main(int argc, char **argv) {
   if (thorough) for (auto &x : std::vector<std::string>{"12", "-5", "0:12", "-5:5:12", "12:-5:-5", "7:2:8", "8:-2:7", "1:4:2", "2:-4:1", "-5:-4", "10:1:12", "12:-1:10",
                                                       "0:5:4", "4:-5:0", "9:9", "9:3:9", "9:-3:9", "11:0:11", "0:-2:-5", "-4:2:-1", "3:2:4", "4:-2:3", "6:6:12", "12:-6:0", "1:2:7", "7:-2:1", "2:1:3", "3:-1:2", "0:4:12", "12:-4:0"})
       sub.push_back(x);
-  for (auto &x : sub) for (auto &y : sub) addexpr(x + "," + y);
+  std::vector<std::string> sub2 = sub;  // blocks for the two-block product
+  if (thorough) {
+    const long V[] = {-8, -2, 0, 1, 3, 7, 20}, S[] = {-6, -2, -1, 0, 1, 2, 3, 6};
+    for (long b : V) sub2.push_back(std::to_string(b));
+    for (long b : V) for (long e : V) sub2.push_back(std::to_string(b) + ":" + std::to_string(e));
+    for (long st : S) for (long b : V) for (long e : V) sub2.push_back(blk(b, st, e));
+    std::sort(sub2.begin(), sub2.end());
+    sub2.erase(std::unique(sub2.begin(), sub2.end()), sub2.end());
+  }
+  for (auto &x : sub2) for (auto &y : sub2) addexpr(x + "," + y);
   // (4) blanks are removed before parsing: the same blocks with blanks inside
   for (auto &x : sub) {
     std::string sp;
@@ -237,11 +278,19 @@ int main(int argc, char **argv) {
     addexpr(" " + sp + " ");
     addexpr(sp + " , " + sub[4]);
     addexpr(sub[10] + " ,  " + sp);
+    if (thorough) {
+      std::string tb;
+      for (char c : x) { if (c == ':') tb += "\t:\t"; else tb += c; }
+      addexpr("\t" + x); addexpr(x + "\t"); addexpr(tb); addexpr(x + ",\n" + sub[4]); addexpr(x + "\r\n");
+      addexpr("  " + x + "  ,  " + x + "  ");
+    }
   }
   // (5) three-block expressions over a small subset
   {
     std::vector<std::string> s3 = {"1", "0:2", "0:2:5", "6:-2:1", "5:-3:3", "2:0:4", "3:1"};
-    if (thorough) for (auto &x : std::vector<std::string>{"-3:-1", "1:3:6", "6:-1:3", "3:-1:3", "2:3:2"}) s3.push_back(x);
+    if (thorough) for (auto &x : std::vector<std::string>{"-3:-1", "1:3:6", "6:-1:3", "3:-1:3", "2:3:2", "-8", "20", "0:20", "-8:4:20", "20:-4:-8", "20:-6:-8", "-8:6:20", "7:7", "7:2:7", "7:-2:7",
+                                                         "0:-1:-8", "-8:-2", "-2:-1:-8", "3:6:20", "20:-6:3", "1:0:1", "0:6:5", "5:-6:0", "1:2", "2:-1:1", "20:20:20", "-8:1:-8", "0:3:20", "19:20",
+                                                         "20:-1:19", "1::3", "1x", ""}) s3.push_back(x);
     for (auto &x : s3) for (auto &y : s3) for (auto &z : s3) addexpr(x + "," + y + "," + z);
   }
   // (6) Add(): all valid positive-stride blocks, and pairs over a subset
@@ -253,7 +302,7 @@ int main(int argc, char **argv) {
   }
   R.rule = "RangeParser: every expression of a bounded grammar window — all single blocks 'b', 'b:e', 'b:s:e' with b,e in [" + std::to_string(lo) + "," + std::to_string(hi) +
            "], s in [" + std::to_string(-smax) + "," + std::to_string(smax) + "] (incl. zero and negative strides, empty intervals); " + std::to_string(mal.size()) +
-           " malformed forms alone and before/after a valid block; all two-block expressions over a " + std::to_string(sub.size()) +
+           " malformed / unsettled spellings (empty fields and blocks, garbage, leading '+', tabs and newlines, integers beyond 32 and 64 bit, ...) alone and before/after a valid block; all two-block expressions over a " + std::to_string(sub2.size()) +
            "-block subset; the same blocks written with blanks; three-block expressions over a small subset; Add(b,e,s) for all valid positive-stride "
            "blocks and pairs of them. Oracle: strict reference parser (int | int:int | int:int:int per comma separated block after blank removal, stride != 0) "
            "+ direct enumeration; iteration under a step budget of len+32 (non-termination = failure); print->Parse round trip must give the same sequence. "
@@ -282,7 +331,7 @@ int main(int argc, char **argv) {
   R.assumptions = {"'malformed' = anything that is not int, int:int or int:int:int per comma separated block after removal of blanks, plus a zero stride (DESIGN §6)",
                    "an expression consisting only of blanks may be rejected or accepted as the empty range; a block whose interval is empty (5:2, 1:-1:4) may be rejected or contribute nothing",
                    "b:s:e with s<0 denotes b, b+s, ... >= e (the code's own acceptance test begin*stride <= end*stride treats it so)",
-                   "integers of more than 9 characters and a leading '+' are outside the enumerated grammar"};
+                   "a leading '+', tab/newline/CR used as blank and integers of 10..18 digits are spellings the statement does not settle: rejecting is allowed, if accepted the denoted sequence is demanded; integers of >= 20 digits must be rejected"};
   if (!R.write(a.out)) { fprintf(stderr, "cannot write %s\n", a.out.c_str()); return 2; }
   return 0;
 }
